@@ -14,6 +14,8 @@ import (
 
 	"github.com/ClickHouse/ch-go"
 	"github.com/ClickHouse/ch-go/proto"
+	sdktrace "go.opentelemetry.io/otel/sdk/trace"
+	"go.opentelemetry.io/otel/sdk/trace/tracetest"
 	"go.opentelemetry.io/otel/trace"
 	"pgregory.net/rapid"
 
@@ -136,6 +138,14 @@ func runC02(rt *rapid.T, st *stats.Collector) {
 	opt := baseOptions(clientRev, comp)
 	opt.Settings = drawChSettings(rt, "conn-setting")
 	opt.QuotaKey = shortStr.Draw(rt, "conn-quota")
+	// With instrumentation on and a recording tracer provider the query runs inside a span of
+	// its own: that span is the trace context the server is told about.
+	var rec *tracetest.SpanRecorder
+	if rapid.IntRange(0, 3).Draw(rt, "recording-tracer") == 0 {
+		rec = tracetest.NewSpanRecorder()
+		opt.OpenTelemetryInstrumentation = true
+		opt.TracerProvider = sdktrace.NewTracerProvider(sdktrace.WithSpanProcessor(rec), sdktrace.WithSampler(sdktrace.AlwaysSample()))
+	}
 	q := ch.Query{
 		Body: bodyGen.Draw(rt, "body"), QueryID: rapid.OneOf(rapid.Just(""), shortStr).Draw(rt, "query-id"),
 		QuotaKey: shortStr.Draw(rt, "quota"), Secret: shortStr.Draw(rt, "secret"), InitialUser: shortStr.Draw(rt, "initial-user"),
@@ -337,8 +347,23 @@ func runC02(rt *rapid.T, st *stats.Collector) {
 		}
 		if N >= ref.RevOpenTelemetry {
 			ws := refSpan(span)
+			if rec != nil {
+				var do sdktrace.ReadOnlySpan
+				for _, s := range rec.Ended() {
+					if s.Name() == "Do" {
+						do = s
+					}
+				}
+				if do == nil {
+					rt.Fatalf("instrumentation is on, but no span named Do was recorded for the query")
+				}
+				ws = refSpan(do.SpanContext())
+				if span.IsValid() && (do.SpanContext().TraceID() != span.TraceID() || do.Parent().SpanID() != span.SpanID()) {
+					rt.Fatalf("the query's span %+v is not a child of the caller's %+v", do.SpanContext(), span)
+				}
+			}
 			if ci.Span != ws {
-				rt.Fatalf("trace context on the wire %+v want %+v", ci.Span, ws)
+				rt.Fatalf("trace context on the wire %+v want %+v (recording tracer: %v)", ci.Span, ws, rec != nil)
 			}
 		}
 		// Data packets.
